@@ -31,6 +31,7 @@ def run(ctx, rep):
         ctors(prog, rep, tag)
         transition(prog, rep, tag)
         waits(prog, rep, tag)
+        wait_loop(prog, rep, tag)
         is_state(prog, rep, tag)
         main_wait(prog, rep, tag)
         codes(prog, rep, spec, tag)
@@ -128,6 +129,29 @@ def waits(prog, rep, tag):
         polls = b.calls_to("Future::poll")
         ok = ok and len(polls) >= 1 and any(any(x[0] == "call" and x[2] == to[0].bb for x in Prov(b).of_operand(p_.args[0]) if len(x) > 2) for p_ in polls)
         rep.ob(P, "%s%s" % (fn, tag), ok, "%s awaits its poll loop wrapped in .timeout(timeouts.state_transition())" % fn, loc=b.span, how="dataflow")
+
+
+def wait_loop(prog, rep, tag):
+    """SubDeviceGroup::wait_for_state leaves its poll loop with Ok only when is_state returned Ok(true)."""
+    P = "C10.waitloop"
+    ok = False
+    for g in prog.group("SubDeviceGroup::wait_for_state"):
+        iss = g.calls_to("SubDeviceGroup::is_state")
+        if not iss:
+            continue
+        pr = Prov(g)
+        oks = q.aggregates(g, "Result", "Ok")
+        for cd in q.conds(g):
+            if cd.kind in ("bool", "int") and hasattr(cd, "operand") and cd.t.get("dty") == "bool":
+                r = pr.of_operand(cd.operand)
+                if has_root(r, "await", "SubDeviceGroup::is_state"):
+                    t = cd.true_target()
+                    dom = q.edge_dominated(g, cd.bb, t)
+                    ok = bool(oks) and all(x[0] in dom for x in oks)
+                    # the desired state handed to is_state is wait_for_state's own argument
+                    a = pr.of_operand(iss[0].args[2])
+                    ok = ok and any(x[-1] == "desired_state" for x in a if x[0] in ("arg", "upvar"))
+    rep.ob(P, "ok-only-if-in-state" + tag, ok, "the poll loop breaks with Ok(()) only on the edge where is_state(desired_state) returned true; errors propagate through `?`", how="path")
 
 
 def is_state(prog, rep, tag):
